@@ -273,3 +273,150 @@ Proof.
     + apply (gput_in v_id) in Hw. destruct Hw as [->|Hw]; [exact Hwf|apply HW; exact Hw].
     + apply (gdel_in v_id) in Hw. apply HW; exact Hw.
 Qed.
+
+Lemma inv_prods_exist c s : Inv01 c s -> ProdsExist s.
+Proof.
+  intros I. split.
+  - intros v Hin. destruct (i_prod _ _ I (v_app v) (v_pair v)) as (_ & _ & P3). unfold pfound. unfold pids in P3.
+    destruct (prods s (v_app v) (v_pair v)); [reflexivity|exfalso].
+    assert (Hi : In (v_id v) (prod_ids s (v_app v) (v_pair v))).
+    { unfold prod_ids. apply in_or_app. left. apply in_map. apply filter_In. split; [exact Hin|].
+      unfold inprod. rewrite !Z.eqb_refl. reflexivity. }
+    rewrite <- P3 in Hi. destruct Hi.
+  - intros x Hin. destruct (i_prod _ _ I (sv_app x) (sv_pair x)) as (_ & _ & P3). unfold pfound. unfold pids in P3.
+    destruct (prods s (sv_app x) (sv_pair x)); [reflexivity|exfalso].
+    assert (Hi : In (sv_id x) (prod_ids s (sv_app x) (sv_pair x))).
+    { unfold prod_ids. apply in_or_app. right. apply in_map. apply filter_In. split; [exact Hin|].
+      unfold sinprod. rewrite !Z.eqb_refl. reflexivity. }
+    rewrite <- P3 in Hi. destruct Hi.
+Qed.
+
+(* ---------- who sends a message: user accounts, never the two module accounts ---------- *)
+Definition sender (o : op) : Z :=
+  match o with
+  | Create f _ _ _ _ | Deposit f _ _ _ _ _ | Withdraw f _ _ _ _ _ | Draw f _ _ _ _ _ | Repay f _ _ _ _ _
+  | Close f _ _ _ _ | DepositDraw f _ _ _ _ _ _ | StableCreate f _ _ _ | StableDeposit f _ _ _ _
+  | StableWithdraw f _ _ _ _ | Donate f _ _ => f
+  | _ => 2
+  end.
+Definition user_op (o : op) : Prop := sender o <> VAULT /\ sender o <> COLL.
+
+(* ---------- environment operations and donations ---------- *)
+Lemma inv01_env c s s' : Inv01 c s ->
+  vaults s' = vaults s -> svaults s' = svaults s -> prods s' = prods s -> vlen s' = vlen s -> vid s' = vid s -> sid s' = sid s ->
+  (forall d, bal s' VAULT d - unsol s' d = bal s VAULT d - unsol s d) -> Inv01 c s'.
+Proof.
+  intros I Hv Hx Hp Hl Hi Hsi Hb.
+  constructor; unfold coll_sum, prod_coll_sum, prod_mint_sum, prod_ids, pcoll, pmint, pids, VWf in *; rewrite ?Hv, ?Hx, ?Hp, ?Hl, ?Hi, ?Hsi;
+    try apply I.
+  intros d. pose proof (i_custody _ _ I d) as Hc. unfold coll_sum in Hc. specialize (Hb d). lia.
+Qed.
+
+Lemma donate_inv01 c s f d amt s' : f <> VAULT -> Inv01 c s -> donate s f d amt = Ok s' -> Inv01 c s'.
+Proof.
+  intros Hf I H. unfold donate in H. exec1 H. exec1 H. apply send_spec in E. destruct E as (_ & b1 & -> & Hb1).
+  injection H as <-. apply (inv01_env c s); try reflexivity; [exact I|].
+  intros x. ssimpl. rewrite Hb1. unfold xfer, at1. rewrite Z.eqb_refl. destruct (Z.eqb_spec VAULT f); [congruence|]. cbn [andb].
+  destruct (x =? d); lia.
+Qed.
+
+(* ---------- one step ---------- *)
+Theorem run_inv01 c s o s' : cfg_ok c -> user_op o -> Inv01 c s -> run c s o = Ok s' -> Inv01 c s'.
+Proof.
+  intros CK [Hu _] I H. pose proof (inv_prods_exist c s I) as PE. pose proof (i_wf _ _ I) as W.
+  destruct o; cbn [run sender] in *.
+  - unfold msg_create in H. do 2 exec1 H.
+    destruct (create_h_effect c s from app epid ain aout s' CK ltac:(lia) ltac:(lia) H) as (ep & cl & _ & _ & _ & _ & _ & _ & _ & _ & _ & E).
+    exact (effect_inv01 _ _ _ _ _ _ Hu I E).
+  - unfold msg_deposit in H. do 2 exec1 H.
+    destruct (deposit_h_effect c s from app epid id amt ienv s' PE W ltac:(lia) H) as (v0 & ep & _ & _ & _ & _ & _ & _ & _ & E).
+    exact (effect_inv01 _ _ _ _ _ _ Hu I E).
+  - unfold msg_withdraw in H. do 2 exec1 H.
+    destruct (withdraw_h_effect c s from app epid id amt ienv s' PE W ltac:(lia) H) as (v0 & ep & _ & _ & _ & _ & _ & _ & _ & E).
+    exact (effect_inv01 _ _ _ _ _ _ Hu I E).
+  - unfold msg_draw in H. do 2 exec1 H.
+    destruct (draw_h_effect c s from app epid id amt ienv s' CK PE W H) as (v0 & ep & _ & _ & _ & _ & _ & _ & _ & _ & _ & _ & _ & E).
+    exact (effect_inv01 _ _ _ _ _ _ Hu I E).
+  - destruct (repay_effect c s from app epid id amt ienv s' PE W H) as (v0 & ep & _ & _ & _ & _ & _ & _ & _ & [[_ E]|(_ & _ & E)]);
+      exact (effect_inv01 _ _ _ _ _ _ Hu I E).
+  - destruct (close_effect c s from app epid id ienv s' PE W H) as (v0 & ep & _ & _ & _ & _ & _ & _ & E).
+    exact (effect_inv01 _ _ _ _ _ _ Hu I E).
+  - unfold msg_deposit_draw in H. do 5 exec1 H. exec1 H.
+    destruct (deposit_h_effect c s from app epid id amt i1 st PE W ltac:(lia) E) as (v0 & ep & _ & _ & _ & _ & _ & _ & _ & E1).
+    pose proof (effect_inv01 _ _ _ _ _ _ Hu I E1) as I1.
+    destruct (draw_h_effect c st from app epid id z0 i2 s' CK (inv_prods_exist c st I1) (i_wf _ _ I1) H) as (v1 & ep1 & _ & _ & _ & _ & _ & _ & _ & _ & _ & _ & _ & E2).
+    exact (effect_inv01 _ _ _ _ _ _ Hu I1 E2).
+  - destruct (stable_create_effect c s from app epid amt s' CK H) as (ep & tout & _ & _ & _ & _ & _ & _ & _ & _ & E).
+    exact (effect_inv01 _ _ _ _ _ _ Hu I E).
+  - destruct (stable_deposit_effect c s from app epid id amt s' CK PE H) as (x0 & ep & tout & _ & _ & _ & _ & _ & _ & _ & _ & _ & E).
+    exact (effect_inv01 _ _ _ _ _ _ Hu I E).
+  - destruct (stable_withdraw_effect c s from app epid id amt s' CK PE H) as (x0 & ep & tout & upd & _ & _ & _ & _ & _ & _ & _ & _ & _ & E).
+    exact (effect_inv01 _ _ _ _ _ _ Hu I E).
+  - destruct (interest_effect c s app id ienv s' W H) as (v0 & _ & _ & E).
+    exact (effect_inv01 _ _ _ 2 _ _ Hu I (E 2)).
+  - exact (donate_inv01 c s from d amt s' Hu I H).
+  - injection H as <-. apply (inv01_env c s); try reflexivity; exact I.
+  - injection H as <-. apply (inv01_env c s); try reflexivity; exact I.
+  - injection H as <-. apply (inv01_env c s); try reflexivity; exact I.
+  - injection H as <-. apply (inv01_env c s); try reflexivity; exact I.
+  - injection H as <-. apply (inv01_env c s); try reflexivity; exact I.
+Qed.
+
+(* ---------- every finite history ---------- *)
+Lemma step_inv01 c s o : cfg_ok c -> user_op o -> Inv01 c s -> Inv01 c (step c s o).
+Proof.
+  intros CK U I. destruct (step_cases c s o) as [(s' & H & ->)|[_ ->]]; [|exact I].
+  exact (run_inv01 c s o s' CK U I H).
+Qed.
+
+Theorem history_inv01 c ops : cfg_ok c -> Forall user_op ops -> forall s, Inv01 c s -> Inv01 c (run_all c ops s).
+Proof.
+  intros CK. induction ops as [|o ops IH]; intros U s I; [exact I|].
+  inversion U as [|? ? Uo Uops]; subst. cbn [run_all fold_left]. apply IH; [exact Uops|].
+  apply step_inv01; assumption.
+Qed.
+
+Lemma inv01_init c b sp t pr : (forall d, b VAULT d = 0) -> Inv01 c (init b sp t pr).
+Proof.
+  intros Hb. constructor; cbn [init vaults svaults prods vlen vid sid bal unsol].
+  - intros d. rewrite Hb. reflexivity.
+  - reflexivity.
+  - intros a' p'. repeat split; reflexivity.
+  - constructor.
+  - constructor.
+  - constructor.
+  - constructor.
+  - intros v [].
+  - intros v [].
+  - intros v [].
+Qed.
+
+(* ---------- the executable predicate that judges the implementation ---------- *)
+Lemma inv01_product c s a p : Inv01 c s -> c01_product s a p = true.
+Proof.
+  intros I. destruct (i_prod _ _ I a p) as (P1 & P2 & P3). pose proof (prod_ids_sorted c s a p I) as Hs.
+  unfold c01_product. unfold pcoll, pmint, pids in *. destruct (prods s a p) as [pr|].
+  - rewrite P1, P2, P3, !Z.eqb_refl, list_eqb_refl, (sorted_ascending _ Hs). reflexivity.
+  - rewrite <- P3. reflexivity.
+Qed.
+
+Theorem inv01_holds c s denoms : Inv01 c s -> holds_C01 c denoms s = true.
+Proof.
+  intros I. unfold holds_C01. rewrite !andb_true_iff. repeat split.
+  - apply forallb_forall. intros d _. unfold c01_custody. rewrite (i_custody _ _ I d). apply Z.eqb_refl.
+  - unfold c01_count. rewrite (i_count _ _ I). apply Z.eqb_refl.
+  - apply forallb_forall. intros e _. apply (inv01_product c); exact I.
+Qed.
+
+(* ---------- the example configuration meets the hypotheses ---------- *)
+From Comdex Require Import Model.VaultExample.
+Lemma ex_cfg_ok : cfg_ok ex_cfg.
+Proof.
+  split.
+  - cbn. repeat constructor; cbn; intuition discriminate.
+  - intros e [<-|[<-|[]]]; unfold ep_ok; cbn; repeat split; try discriminate; reflexivity.
+Qed.
+Lemma ex_ops_users : Forall user_op ex_ops.
+Proof. repeat constructor; discriminate. Qed.
+Lemma ex_init_inv : Inv01 ex_cfg ex_init.
+Proof. apply inv01_init. reflexivity. Qed.
